@@ -99,7 +99,10 @@ func vfC29WGen(rt *rapid.T) vfC29WPlan {
 			}
 			return op("begin")
 		default:
-			return op("close")
+			if u("really_close", 0, 1) == 0 {
+				return op("close")
+			}
+			return op("begin")
 		}
 	}
 	noise := func() vfC29WStep {
@@ -599,6 +602,7 @@ func vfC29WRun(t *testing.T, p vfC29WPlan) vk.Result {
 	inflight := make([]*vfC29WActor, p.Workers) // per slot: its running OnCallBegin/OnCallEnd
 	rpcOpen := make([]bool, p.Workers)          // per slot: OnCallBegin returned, OnCallEnd not yet called
 	closed := false
+	deadlocked := false // operations other than OnCallBegin wait for idleMu forever (not asserted)
 	connects, forces := 0, 0
 	steps := 0
 
@@ -670,12 +674,21 @@ func vfC29WRun(t *testing.T, p vfC29WPlan) vk.Result {
 		if ngates == 0 && nparked == 0 && len(onMutex) > 0 {
 			// Nobody is inside a ClientConn callback, nobody is parked by the
 			// harness, nobody is running: whoever waits for idleMu waits forever.
+			// The statement is about RPC starts, so only a stuck OnCallBegin is a
+			// violation; other stuck operations are counted (a later OnCallBegin
+			// that needs idleMu will then get stuck, too).
 			var desc []string
+			rpcStuck := false
 			for _, b := range onMutex {
 				desc = append(desc, fmt.Sprintf("op %d (%s, slot %d) [%s]", b.a.id, b.a.kind, b.a.worker, b.st))
+				rpcStuck = rpcStuck || b.a.kind == "begin"
 			}
-			h.abandon()
-			return finish(vk.Bad("deadlock: %v blocked on idleMu although every ClientConn callback has returned and no other goroutine is running", desc)), true
+			if rpcStuck {
+				h.abandon()
+				return finish(vk.Bad("deadlock: %v blocked on idleMu although every ClientConn callback has returned and no other goroutine is running: OnCallBegin never returns", desc)), true
+			}
+			o.classes["deadlock_without_rpc_start"] = true
+			deadlocked = true
 		}
 		return vk.Result{}, false
 	}
@@ -836,6 +849,9 @@ func vfC29WRun(t *testing.T, p vfC29WPlan) vk.Result {
 	h.release()
 	if left > 0 {
 		h.abandon()
+		if deadlocked {
+			return finish(vk.Result{NonTrivial: o.nt})
+		}
 		return finish(vk.Bad("harness: %d operations unfinished after the drain", left))
 	}
 	if o.enters >= 2 {
